@@ -2,8 +2,8 @@
 
 @assumed("pandora.cost_volume_confidence.cost_volume_confidence.AbstractCostVolumeConfidence.allocate_confidence_map")
 def _(name_confidence_measure, confidence_map, disp, cv):
-    # xarray surgery (drop_dims / DataArray construction): returns (disp, cv) with a rebuilt 'confidence_measure' variable; every
-    # other variable keeps its array.  The band contents are checked by the bounded stand-in (C07.conf.*, C12).
+    # the form seen by CALL SITES (disparity_checking).  The function itself is under a proved contract in contracts/confidence.py
+    # (option standalone: written per dataset structure); its postcondition band_as_assumed_at_call_sites is this clause verbatim.
     types(name_confidence_measure="str", confidence_map="f32[:,:]", disp="opaque", cv="opaque")
     option(returns=["disp", "cv"], fresh_vars={"disp": {"confidence_measure": "f32[:,:,:]"}})
     # the new band is the last one and holds the map that was passed
